@@ -122,6 +122,11 @@ func c07TemplateCase(rt *rapid.T) *c07Case {
 		"import \"os\"\n\nimport (\n\t\"fmt\"\n)\n\nvar _, _ = fmt.Sprint, os.Exit\n\n",
 		"import f \"fmt\"\nimport . \"os\"\nimport _ \"embed\"\n\nvar _ = f.Sprint\n\n",
 	}).Draw(rt, "imports"))
+	// generated source (goyacc, cgo): positions from here on are reported
+	// for another file and lines far beyond the end of this one
+	if rapid.IntRange(0, 5).Draw(rt, "lineDirective") == 0 {
+		f.WriteString(rapid.SampledFrom([]string{"//line gen.y:9000\n", "//line gen.y:1\n", "/*line gen.y:700:1*/\n", "//line :5000\n"}).Draw(rt, "lineDirectiveText"))
+	}
 	n := rapid.IntRange(1, 3).Draw(rt, "n")
 	for i := 0; i < n; i++ {
 		x := rapid.SampledFrom(c07Fillers).Draw(rt, fmt.Sprintf("x%d", i))
